@@ -36,6 +36,14 @@ first sweep with the zero tensors) — modelled as a zero-flag step in Model/Mps
 `tol_discards_all_is_zero_exit`, `tol_discards_all_gives_zeros`, `kept_rank_pos` in Props/C12.lean); monitors: no
 exception, result zeros_like, norm 0 / |in| as the code has it (tol_discards_all, tol_exit_truncate_norm).
 
+BALANCED class (`build_balanced`, str seeds 'B<int>'; search variant `balanced_copy`): a huge dynamic range ALONG the
+chain that cancels — per-site scales 1e+-(42..140) on 5..8 sites (up to 1e+-9 / 20 / 40 on 40..100 sites) arranged so
+that a partial product of the per-site norms (a prefix, a suffix, an interior stretch; interleaved / shuffled controls)
+passes 1e+-330 while every tensor entry stays inside 1e+-154, the state norm inside 1e+-120 and the scale a
+non-normalising sweep has accumulated when it reaches the centre inside 1e+-250.  Tensors, state and result are
+ordinary float64 objects, so normalise=False is IN the domain there and all clauses (state preservation above all) are
+claimed: the running norm of a sweep need not fit a float, only its final value does.
+
 All numeric monitors are SCALE-FREE: every tensor is divided by its Frobenius norm, the product of these norms and
 the returned norm are carried as mpmath mpf (120 bits), and only O(1) quantities are compared.  Chains too long for a
 dense contraction (40..100 sites) are compared through transfer-matrix overlaps <in|in>, <in|out>, <out|out>
@@ -67,7 +75,10 @@ RULE = ('random MPS (bra/ket) and MPO: 1..7 tensors, physical dims 1..3, bonds 1
         'strictly upper / lower triangular (nilpotent), shift, repeated columns, partial permutation, identity; one '
         'site or every site) / XSCALE (2..7 sites, every tensor times 1e+-30..1e+-150: state norm far outside the '
         'float range) / LONG (40..100 sites, bonds 1..2, physical dims 1..2, every tensor times 1e-9..1e9, optional '
-        'structured site); malformed stream: internal None '
+        'structured site) / BALANCED (5..8 sites with per-site scales 1e+-(42..140), or 40..100 sites with up to '
+        '1e+-40, whose partial products along the chain pass 1e+-330 — prefix, suffix, interior, interleaved and '
+        'shuffled arrangements — while entries, state norm and final accumulated scale stay well inside the float '
+        'range; every op, qr/svd, normalise mostly False); malformed stream: internal None '
         'gap, all-None and empty lists, bond mismatch, wrong mask length, chi or tol with qr; ops '
         'left_canonical_form / right_canonical_form (qr and svd, chi in None,0,1..7, tol in None,0,1e-12,1e-3,0.5 and '
         'tol >= 1: 1.0,1.5,1e3 (nothing kept: zero exit), normalise both, masks None/random/all-false/all-true) and '
@@ -90,8 +101,8 @@ DENSE_CAP = 60000
 
 # ------------------------------------------------------------------------------------------ case generation
 
-def gen_shapes(rng):
-    L = rng.choice([1, 1, 2, 2, 3, 3, 4, 5, 6, 7])
+def gen_shapes(rng, lengths=(1, 1, 2, 2, 3, 3, 4, 5, 6, 7)):
+    L = rng.choice(list(lengths))
     kind = rng.choice(['bra', 'ket', 'mpo'])
     while True:
         phys = []
@@ -205,7 +216,7 @@ def build_case(seed):
     """deterministic construction of one case from an integer seed (drawn from ctx.rng by run()); a str seed is a case
     of a SYSTEMATIC class ('S' + JSON spec, see special_specs / build_special)"""
     if isinstance(seed, str):
-        return build_special(seed)
+        return build_balanced(seed) if seed.startswith('B') else build_special(seed)
     rng = random.Random(seed)
     nrng = np.random.default_rng(seed)
     cls = rng.random()
@@ -385,6 +396,150 @@ def build_special(seed):
     return {'seed': seed, 'kind': kind, 'style': 'class:' + spec['cls'], 'mps': mps, 'op': spec['op'], 'chi': spec['chi'],
             'tol': spec['tol'], 'qr': spec['qr'], 'normalise': spec['normalise'], 'mask': special_mask(spec['mask'], mps),
             'malformed': None, 'zero_exact': spec['cls'] == 'zero', 'mask_kind': spec['mask']}
+
+
+# ------------------------------------------------------------------------------------------ balanced extreme scales
+
+# per-tensor decimal exponent limit of the BALANCED class: every entry stays well inside 1e+-154, where unscaled norms
+# (numpy's sqrt(sum x^2), reached by scipy.linalg.norm on 4-index arrays) square them without leaving the float range
+BAL_KMAX = 140
+BAL_EXCURSION = 330      # least |decimal exponent| a partial product of per-site scales reaches (float range: 1e+-308)
+BAL_ORDERS = ['prefix', 'prefix', 'prefix', 'suffix', 'suffix', 'suffix', 'middle', 'interleaved', 'shuffled']
+
+
+def balanced_exponents(rng, L, kmax):
+    """decimal exponents k_0..k_{L-1}, |k_i| <= kmax, of per-site scales with a HUGE DYNAMIC RANGE ALONG THE CHAIN that
+    cancels: the first h sites share one sign and multiply to 1e+-(330..h*kmax) — outside the float range — and the
+    remaining sites compensate, so that the product of all sites (the scale of the state) lies within 1e+-100 and the
+    product of all sites but the last (what a non-normalising sweep has accumulated when it reaches the centre) within
+    1e+-250: every tensor, the state and the result are ordinary float64 objects, only PARTIAL products of the
+    per-site norms leave the float range on the way.  None when L is too short for kmax."""
+    hmin = -(-BAL_EXCURSION // kmax)
+    if L < hmin + 2:
+        return None
+    for _ in range(200):
+        h = rng.randint(hmin, L - 2)
+        lo = -(-BAL_EXCURSION // h)
+        sgn = rng.choice([-1, 1])
+        pre = [sgn * rng.randint(lo, kmax) for _ in range(h)]
+        total = rng.randint(-100, 100)
+        rest_n = L - h
+        share = (total - sum(pre)) / rest_n
+        room = kmax - abs(share)
+        if room < 0:
+            continue
+        jit = [rng.uniform(-room, room) / 2 for _ in range(rest_n)]
+        mean = sum(jit) / rest_n
+        rest = [int(round(share + j - mean)) for j in jit]
+        ks = pre + rest
+        if max(abs(k) for k in ks) <= kmax and abs(sum(ks)) <= 120 and abs(sum(ks[:-1])) <= 250 and \
+                abs(sum(ks[1:])) <= 250:
+            return ks
+    return None
+
+
+def balanced_order(rng, ks, order):
+    """arrangement of the exponents along the chain: 'prefix' as built (excursion met by a left-to-right sweep),
+    'suffix' mirrored (met by right_canonical_form), 'middle' rotated (excursion in the interior, both sweeps meet a
+    part of it), 'interleaved' (same multiset, partial products kept as small as the multiset allows: control),
+    'shuffled'"""
+    ks = list(ks)
+    if order == 'suffix':
+        ks.reverse()
+    elif order == 'middle':
+        r = rng.randrange(len(ks))
+        ks = ks[r:] + ks[:r]
+    elif order == 'shuffled':
+        rng.shuffle(ks)
+    elif order == 'interleaved':
+        pool, out, acc = sorted(ks), [], 0
+        while pool:
+            k = pool.pop(0) if acc > 0 else pool.pop()
+            out.append(k)
+            acc += k
+        ks = out
+    return ks
+
+
+def pow10_as_pow2(k):
+    """the power of two nearest 1e(k): scaling by it is exact (small-integer tensors stay exactly representable)"""
+    return float(np.ldexp(1.0, int(round(k * 3.321928094887362))))
+
+
+def balanced_scale(tensors, ks):
+    """tensor i (ordinary magnitude) times the power of two nearest 1e(k_i)"""
+    return [t * pow10_as_pow2(k) for t, k in zip(tensors, ks)]
+
+
+def build_balanced(seed):
+    """one case of the BALANCED class from a str seed 'B<int>': ordinary random / small-integer / structured tensors on
+    5..8 sites (per-site scales 1e+-(42..140)) or 40..100 sites (per-site scales up to 1e+-9 / 1e+-20 / 1e+-40) times
+    balanced_exponents in one of BAL_ORDERS; every op, QR and SVD, normalise both (mostly False: the sweep that has to
+    carry the accumulated scale into the centre tensor), chi / tol mostly non-truncating, masks"""
+    rng = random.Random(seed)
+    nrng = np.random.default_rng(int(seed[1:]))
+    long_ = rng.random() < 0.08
+    if long_:
+        kind, shapes = gen_long(rng)
+        kmax = rng.choice([9, 20, 40])
+    else:
+        kind, shapes = gen_shapes(rng, lengths=(5, 5, 5, 6, 6, 7, 7, 8))
+        kmax = BAL_KMAX
+    L = len(shapes)
+    base = rng.choice(['normal', 'int'])
+    if rng.random() < 0.2:
+        tensors = struct_tensors(rng, nrng, shapes)
+    else:
+        tensors = [fill(rng, nrng, s, base) for s in shapes]
+    order = rng.choice(BAL_ORDERS)
+    ks = None
+    for km in (kmax, 20, 40, BAL_KMAX):       # a chain too short for the drawn per-site limit gets the next one
+        ks = ks or balanced_exponents(rng, L, km)
+    ks = balanced_order(rng, ks, order)
+    tensors = balanced_scale(tensors, ks)
+    mps = [None] * rng.choice([0, 0, 0, 1, 2]) + tensors + [None] * rng.choice([0, 0, 0, 1, 2])
+    op = rng.choice(['lcf', 'lcf', 'rcf', 'rcf', 'trunc'])
+    qr = op != 'trunc' and rng.random() < 0.5
+    if qr:
+        chi, tol = rng.choice([None, None, 0]), rng.choice([None, None, 0.0])
+    else:
+        chi = rng.choice([None, None, None, 0, 7, 7, 2, 1])
+        tol = rng.choice([None, None, None, 0.0, 1e-12, 1e-3])
+    normalise = rng.random() < 0.3
+    mr = rng.random()
+    if mr < 0.6:
+        mask = None
+    elif mr < 0.8:
+        mask = [rng.random() < 0.5 for _ in mps]
+    elif mr < 0.9:
+        mask = [False] * len(mps)
+    else:
+        mask = [True] * len(mps)
+    return {'seed': seed, 'kind': kind, 'style': 'balanced:' + ('long:' if long_ else '') + order, 'mps': mps, 'op': op,
+            'chi': chi, 'tol': tol, 'qr': qr, 'normalise': normalise, 'mask': mask, 'malformed': None,
+            'zero_exact': False, 'exponents': ks}
+
+
+def balanced_copy(case, rng):
+    """search variant: the same chain (>= 5 sites) with every non-zero tensor rescaled to Frobenius norm 1 and then by
+    balanced per-site scales; None when the chain is too short"""
+    run = run_of(case['mps'])
+    kmax = BAL_KMAX if len(run) <= 12 else rng.choice([20, 40])
+    ks = balanced_exponents(rng, len(run), kmax)
+    if ks is None:
+        return None
+    order = rng.choice(BAL_ORDERS[:7])
+    ks = balanced_order(rng, ks, order)
+    v = dict(case)
+    v['mps'], i = [], 0
+    for t in case['mps']:
+        if t is not None:
+            f = fro(t)
+            t = t / f * pow10_as_pow2(ks[i]) if f and np.isfinite(f) else t
+            i += 1
+        v['mps'].append(t)
+    v['style'] = '{}->balanced:{}'.format(case['style'], order)
+    return v
 
 
 # ------------------------------------------------------------------------------------------ recording the real code
@@ -648,7 +803,8 @@ def state_norm(run):
     if dense_size(run) <= DENSE_CAP:
         return prod * mp.mpf(fro(dense(ts)))
     if boundary_one(run):
-        return prod * mp.sqrt(overlap(ts, ts))
+        ov = overlap(ts, ts)
+        return prod * mp.sqrt(ov) if ov > 0 else mp.mpf(0)     # rounding noise of a cancelling state may be negative
     return None
 
 
@@ -1035,6 +1191,9 @@ def _evaluate(case, st):
                 n_out = mp.mpf(fro(d_out))
         else:
             ii = overlap(t_in, t_in)
+            # a state that cancels to zero along the chain leaves rounding noise of either sign in <in|in>: a
+            # non-positive value is the zero state as far as this route can tell (=> ill-conditioned, no numeric claim)
+            ii = ii if ii > 0 else mp.mpf(0)
             n_in = mp.sqrt(ii)
             if not has_last and gprod != 0:
                 # no norm of the last tensor was taken (normalise=False): |in| / prod|A_i|_F = prod of all gammas
@@ -1044,6 +1203,7 @@ def _evaluate(case, st):
                 return line, impl, fails, info
             if not zero_out:
                 oo, io = overlap(t_out, t_out), overlap(t_in, t_out)
+                oo = oo if oo > 0 else mp.mpf(0)
                 n_out = mp.sqrt(oo)
         # (6) unit norm of a normalised result
         if op != 'trunc' and normalise and not zero_out:
@@ -1222,6 +1382,8 @@ def run(ctx):
         special_seeds += [special_seed(sp, ctx.rng.randrange(1000)) for sp in pool]
     ctx.extra['systematic_classes'] = {c: len(v) for c, v in by_cls.items()}
     seeds = [ctx.rng.getrandbits(48) for _ in range(n)] + special_seeds
+    # BALANCED class (drawn last: the draws of the classes above are unchanged)
+    seeds += ['B{}'.format(ctx.rng.getrandbits(48)) for _ in range(ctx.scale(1500, 15000))]
     for seed in seeds:
         case = build_case(seed)
         line, impl, fails, info = evaluate(case, stats)
@@ -1233,7 +1395,11 @@ def run(ctx):
         if case['zero_exact'] and case['malformed'] is None:
             ctx.count('zero_state.op/qr/normalise', '{}/qr={}/normalise={}'.format(case['op'], int(case['qr']),
                                                                                    int(case['normalise'])))
-        if isinstance(seed, str):
+        if isinstance(seed, str) and 'exponents' in case:
+            ctx.count('balanced.op/qr/normalise', '{}/qr={}/normalise={}'.format(case['op'], int(case['qr']),
+                                                                                 int(case['normalise'])))
+            ctx.count('balanced.in_domain', info['range_limited'] is None)
+        elif isinstance(seed, str):
             ctx.count('systematic.' + case['style'], '{}/mask={}'.format(case['op'], case['mask_kind']))
         ctx.count('outcome', impl.split()[0]); ctx.count('decompositions', info['decomps'])
         if impl.startswith('ok'):
@@ -1349,6 +1515,9 @@ def search(m):
         if i % 3 == 2 and case['malformed'] is None:
             # same chain, every tensor rescaled so that the norm of the state leaves the float range
             v = extreme_copy(case, rng.choice([-1, 1]))
+        elif i % 3 == 1 and case['malformed'] is None and len(run_of(case['mps'])) >= 5:
+            # same chain, per-site scales whose partial products leave the float range while the state stays inside
+            v = balanced_copy(case, rng) or v
         v['op'] = rng.choice(['lcf', 'rcf', 'trunc'])
         v['chi'] = rng.choice(VARIANT_CHI)
         v['tol'] = rng.choice(TOLS + TOL_GE1[:1])
